@@ -373,6 +373,14 @@ func (fr *frame) builtin(st *State, b *ssa.Builtin, cc *ssa.CallCommon, args []V
 		return args[0]
 	case "ssa:deferstack":
 		return c.NilA
+	case "recover":
+		// nil on a normal exit; the (arbitrary, non-nil) panic value while a recovered panic unwinds
+		if u.panicking > 0 {
+			pv := &IfaceV{Tag: c.Var(u.freshName("panic.tag"), BV(32)), Ptr: c.Var(u.freshName("panic.val"), SAddr)}
+			u.assumeGlobal(c.Ne(pv.Tag, c.BVu(0, 32)))
+			return pv
+		}
+		return &IfaceV{Tag: c.BVu(0, 32), Ptr: c.NilA}
 	case "print", "println":
 		return nil
 	case "min", "max":
@@ -521,6 +529,12 @@ func (fr *frame) applyContract(st *State, bc *BoundContract, args []Val, pos tok
 		u.oblige(st, "safety", "call may panic "+site, pos, c.False)
 	}
 	u.havocRegion(st, reg, key)
+	if bc.MayPanic && u.specMode == 0 {
+		if rf := fr.recoverFrame(); rf != nil {
+			// the call may panic after any part of its effect: that path is caught by the recovering function
+			rf.panics = append(rf.panics, st.clone())
+		}
+	}
 	// native ghost effects: appends s, x  (s' = s ++ [x], everything else of s unchanged)
 	for _, ap := range bc.Appends {
 		penv := u.newSpecEnv(bc, st, pre, args, nil)
